@@ -493,4 +493,36 @@ pub fn c18(out: &mut dyn Write, tier: &str, rng: &mut Rng, st: &mut Stats) {
             st.hit("colors");
         }
     }
+    // --convert as the observation of how the tools READ an edge list (the csv crate's reader): texts with all three
+    // line endings mixed, blank lines, a missing final terminator, a byte-order mark, blanks inside fields, non-ASCII
+    // names, and now and then a record with one or three fields.  The driver reads the same bytes with the model's
+    // reader (Gen/CsvInput.lean, Thm/C16I) and compares what was printed with the text of that list.
+    let nread = if tier == "thorough" { 4000 } else { 250 };
+    let pool_read = ["a", "b", "c", "v_1", " c ", "x y", "é", "日本", "A", "a.b", "1", "-"];
+    for i in 0..nread {
+        let m = rng.below(6) as usize;
+        let malformed = i % 10 == 7;
+        let bad_at = if malformed && m > 0 { Some(rng.below(m as u64) as usize) } else { None };
+        let mut text = String::new();
+        if i % 8 == 5 { text.push('\u{FEFF}'); }
+        for j in 0..m {
+            if i % 6 == 4 && rng.chance(1, 4) { text.push_str(*rng.pick(&["\n", "\r\n", "\r"])); } // a blank line before the record
+            let a = rng.pick(&pool_read[..]).to_string();
+            let b = rng.pick(&pool_read[..]).to_string();
+            if bad_at == Some(j) { if rng.chance(1, 2) { text.push_str(&a); } else { text.push_str(&format!("{},{},{}", a, b, a)); } }
+            else { text.push_str(&format!("{},{}", a, b)); }
+            let last = j + 1 == m;
+            if !(last && i % 3 == 1) {
+                text.push_str(*rng.pick(&["\n", "\r\n", "\r", "\n", "\n\n", "\r\n\r\n"]));
+            }
+        }
+        std::fs::write(&path, text.as_bytes()).unwrap();
+        let u = i % 4 == 3;
+        let mut args = vec!["--convert".to_string(), path.clone()];
+        if u { args.push("-u".into()); }
+        let (class, stdout, _) = run_tool("random_graph_gen", &args, &[], OutArg::DashO, 60, st);
+        writeln!(out, "C18|read|{}|{}|{}|{}", u as u8, hex(text.as_bytes()), class, hex(&stdout)).unwrap();
+        st.hit(if malformed && m > 0 { "read.malformed" } else { "read.wellformed" });
+        st.hit(&format!("read.exit.{}", class));
+    }
 }
